@@ -68,6 +68,8 @@ MCDraws2 == {-500, 499}
 MCDraws3 == {-500, 0, 499}
 MCRestartNone == {}
 MCFailNone == {{}}
+MCJumpNone == {}
+MCJumps == {0 - 3600, 5000}
 \* every single failing storage operation among the first ones of each kind, and some pairs
 StOps == {[k |-> k, n |-> n] : k \in {"st.set", "st.rm"}, n \in 1..6} \cup {[k |-> "st.commit", n |-> n] : n \in 1..4}
 MCFailSingles == {{}} \cup {{f} : f \in StOps}
